@@ -3,7 +3,7 @@
    Model: State/StateModel.v (core/state statedb.go, state_object.go, journal.go at content level;
    H = Keccak-256 is a parameter: nothing is assumed about it except where stated). *)
 From AQ Require Import Lib.Bytes State.StateSpec State.StateModel State.StateProofs State.StateRefute
-  State.StateUndoLemmas State.StateRevertProof State.StatePerm State.StateCopy.
+  State.StateUndoLemmas State.StateRevertProof State.StatePerm State.StateCopy State.StateRoot State.StateFinal.
 From Coq Require Import Permutation.
 Import ListNotations.
 Local Open Scope N_scope.
@@ -149,6 +149,69 @@ Theorem C09_copy_obs :
 Proof. exact copy_obs. Qed.
 Print Assumptions C09_copy_obs.
 
+(* Histories that avoid the refuted corners: from a freshly opened StateDB, any sequence of the
+   journalled mutators, Prepare and Snapshot (no RevertToSnapshot, nothing after a Commit) — there
+   the hidden-state premises hold by themselves and Copy reads like the original (full). *)
+Theorem C09_copy_obs_straight :
+  forall (H : bytes -> bytes) trie codes ops s c,
+    forallb straight ops = true -> run H ops (new_state trie codes) = Ok s -> copy s = Ok c ->
+    (forall a, account_view H c a = account_view H s a) /\ (forall a k, get_state c a k = get_state s a k) /\
+    get_refund c = get_refund s /\ (forall th, get_logs c th = get_logs s th) /\ st_preimages c = st_preimages s.
+Proof. exact copy_obs_straight. Qed.
+Print Assumptions C09_copy_obs_straight.
+
+(* History independence of the root: the content committed is a function of what the getters show
+   after the Commit, whatever the two histories were, under the premises of C09_commit_reopen
+   (`commit_premises`, unfolded in C09_commit_premises_meaning) and canonical maps. *)
+Theorem C09_commit_premises_meaning : forall (H : bytes -> bytes) b s,
+  commit_premises H b s <->
+  (no_unmarked H s /\
+   (forall a o, aget a (st_live s) = Some o -> st_coherent o) /\
+   (forall a o, aget a (st_live s) = Some o -> NoDup (akeys (o_dirtyst o))) /\
+   NoDup (akeys (st_live s)) /\
+   (forall a o, aget a (st_live s) = Some o -> o_deleted o = true -> nmem a (st_dirty s) = true ->
+                o_suicided o = true \/ (b = true /\ obj_empty H o = true)) /\
+   (forall h c, bget h (st_codes s) = Some c -> h = H c) /\
+   (forall a o c, aget a (st_live s) = Some o -> o_code o = Some c ->
+                  o_ch o = H c /\ (o_dirtycode o = true \/ bget (o_ch o) (st_codes s) = Some c))).
+Proof. exact (fun H b s => iff_refl _). Qed.
+Print Assumptions C09_commit_premises_meaning.
+
+Theorem C09_root_history_independent :
+  forall (H : bytes -> bytes), (forall x y, H x = H y -> x = y) ->
+  forall b1 b2 s1 s2 s1' s2' r1 r2,
+    commit H b1 s1 = Ok (s1', r1) -> commit H b2 s2 = Ok (s2', r2) ->
+    commit_premises H b1 s1 -> commit_premises H b2 s2 ->
+    canon_state s1 -> canon_state s2 ->
+    (forall a, same_account (account_view H s1' a) (account_view H s2' a) /\
+               forall k, get_state s1' a k = get_state s2' a k) ->
+    r1 = r2 /\ state_root H r1 = state_root H r2.
+Proof. exact (fun H HI b1 b2 s1 s2 s1' s2' r1 r2 C1 C2 P1 P2 K1 K2 E =>
+  let e := root_history_independent_canon H HI b1 b2 s1 s2 s1' s2' r1 r2 C1 C2 P1 P2 K1 K2 E in
+  conj e (f_equal (state_root H) e)). Qed.
+Print Assumptions C09_root_history_independent.
+
+(* the real root: C10's specification root (Trie/MptSpec.mpt_root) of the secure-trie content —
+   keys H(20-byte address) / H(32-byte slot), leaves rlp(nonce, balance, storage root, code hash) /
+   rlp(value without leading zeros).  Compared with the implementation's root hashes on every run.
+   NOT proved here: that C10's executable trie model fed with these leaves returns this root (the
+   composition with C10_hash_is_spec_root_partial); C10 proves it for its own histories. *)
+Theorem C09_state_root_is_spec_root : forall (H : bytes -> bytes) (r : list (N * acct)),
+  state_root H r =
+  Trie.MptSpec.mpt_root H
+    (map (fun kv => (H (be_fixed 20 (fst kv)),
+                     Rlp.RlpSpec.encode (Rlp.RlpSpec.Lst
+                       [Rlp.RlpSpec.Str (be_of_N (a_nonce (snd kv))); Rlp.RlpSpec.Str (be_of_N (Z.to_N (a_bal (snd kv))));
+                        Rlp.RlpSpec.Str (storage_root H (a_root (snd kv))); Rlp.RlpSpec.Str (a_ch (snd kv))]))) r).
+Proof. exact (fun H r => eq_refl). Qed.
+Print Assumptions C09_state_root_is_spec_root.
+
+(* Commit keeps the canonical form of the content (sorted, storage without zero values) *)
+Theorem C09_commit_keeps_canonical_form : forall (H : bytes -> bytes) b s s' r,
+  canon_state s -> commit H b s = Ok (s', r) -> trie_canon r.
+Proof. exact commit_canon. Qed.
+Print Assumptions C09_commit_keeps_canonical_form.
+
 (* ------------------------------------------------------------------------------------------ *)
 (* Clause 4: Go map iteration order does not matter.  `sorted m` = the canonical form of the
    content-level maps (kept by every model operation); the orders are the explicit arguments. *)
@@ -199,3 +262,16 @@ Proof.
   split; [exact (inv_new_state ex_trie [])|]. split; [exact (rok_new_state ex_trie [])|].
   vm_compute. repeat split; auto.
 Qed.
+
+(* non-vacuity of the premises of C09_copy_obs and C09_commit_reopen / C09_root_history_independent:
+   a reachable state with a storage write, a storage clear, new code and a fresh account
+   (for commit_reopen under H = identity, which is collision free) *)
+Example C09_example_copy_premises :
+  (exists c, copy ex2 = Ok c) /\ no_unmarked Lib.Keccak.keccak256 ex2 /\
+  (forall a o, aget a (st_live ex2) = Some o -> st_coherent o).
+Proof. exact ex2_copy_premises. Qed.
+
+Example C09_example_reopen_premises :
+  (forall x y, idH x = idH y -> x = y) /\
+  (exists s' r, commit idH true ex3 = Ok (s', r)) /\ commit_premises idH true ex3 /\ canon_state ex3.
+Proof. exact (conj (proj1 ex3_reopen_premises) (conj (proj1 (proj2 ex3_reopen_premises)) (conj (proj2 (proj2 ex3_reopen_premises)) ex3_canon))). Qed.
